@@ -97,7 +97,7 @@ class LanguageContent(_STIXBase21):
         ('modified', TimestampProperty(default=lambda: NOW, precision='millisecond', precision_constraint='min')),
         ('object_ref', ReferenceProperty(valid_types=["SCO", "SDO", "SRO"], spec_version='2.1', required=True)),
         # TODO: 'object_modified' MUST be an exact match for the modified time of the STIX Object being referenced
-        ('object_modified', TimestampProperty(precision='millisecond')),
+        ('object_modified', TimestampProperty(precision='millisecond', precision_constraint='min')),
         # TODO: Implement 'contents' property requirements as defined in STIX 2.1 CS02
         ('contents', DictionaryProperty(spec_version='2.1', required=True)),
         ('revoked', BooleanProperty(default=lambda: False)),
